@@ -450,10 +450,9 @@ structure TapEnv where
   keySpendOK : Bytes → Bytes → Bool          -- (output key = witness program, signature)
   commitOK : Bytes → Bytes → Bytes → Bool    -- (control block, witness program, leaf script)
 
-/-- `verifyWitnessProgram`, taproot branch -/
-def verifyTaproot (c : Ctx) (env : TapEnv) (program : Bytes) (witness : List Bytes) : Except Err Unit :=
-  if witness.length = 0 then .error .witnessProgramEmpty else
-  let w := if hasAnnex witness then witness.dropLast else witness
+/-- `verifyWitnessProgram`, taproot branch after the annex has been snipped off: key path for a single
+element, otherwise control block = last element, leaf script = second to last -/
+def verifyTaprootCore (c : Ctx) (env : TapEnv) (program : Bytes) (w : List Bytes) : Except Err Unit :=
   match w.reverse with
   | [] => .error .witnessProgramEmpty
   | [sig] =>
@@ -471,6 +470,15 @@ def verifyTaproot (c : Ctx) (env : TapEnv) (program : Bytes) (witness : List Byt
           if v.toNat / 2 * 2 ≠ 0xc0 then .error .discourageLeafVersion
           else if revStack.any (fun e => decide (e.length > MaxScriptElementSize)) then .error .elementTooBig
           else runScript { c with tapscript := true } is revStack
+
+/-- the witness without its annex (`isAnnexedWitness` / `extractAnnex`) -/
+def stripAnnex (witness : List Bytes) : List Bytes :=
+  if hasAnnex witness then witness.dropLast else witness
+
+/-- `verifyWitnessProgram`, taproot branch -/
+def verifyTaproot (c : Ctx) (env : TapEnv) (program : Bytes) (witness : List Bytes) : Except Err Unit :=
+  if witness.length = 0 then .error .witnessProgramEmpty
+  else verifyTaprootCore c env program (stripAnnex witness)
 
 /-! ## Pool's witness builders and classifiers (poolscript/script.go) -/
 
@@ -572,6 +580,7 @@ def WType.name : WType → String
   | .expiryTaproot => "expiryTaproot" | .muSig2Taproot => "muSig2Taproot" | .bad => "bad"
 
 def lookupNat (tbl : List (String × Nat)) (k : String) : Option Nat := (tbl.find? (·.1 == k)).map (·.2)
+def lookupStr (tbl : List (String × String)) (k : String) : Option String := (tbl.find? (·.1 == k)).map (·.2)
 
 /-- does account version `v` fall under a `case` with these constant names ([] = default)? -/
 def versionMatches (names : List String) (v : Nat) : Bool :=
@@ -608,6 +617,25 @@ def spendLockTimeWith : List (List String × String × String) → WType → (is
 
 def spendLockTime (wt : WType) (isClose : Bool) (bestHeight : Nat) : Option Nat :=
   spendLockTimeWith Gen.C04.spendAccountLockTimeTable wt isClose bestHeight
+
+/-- RenewAccount's own choice: always a cooperative type, taproot flavour from the account version on
+(`account.Version >= VersionTaprootEnabled`), whatever the state / best height -/
+def renewWitnessType (version : Nat) : WType :=
+  let rule := Gen.C04.renewWitnessTypeRule
+  if rule.2.1 != "account.Version >= VersionTaprootEnabled" then .bad
+  else match lookupNat Gen.C04.accountVersionValues "VersionTaprootEnabled" with
+    | some t => if version ≥ t then wtypeByName rule.2.2 else wtypeByName rule.1
+    | none => .bad
+
+/-- the witness type a manager method uses for the account input (`none` = method not known / source
+expression not understood) -/
+def managerWitnessType (method : String) (version state expiry bestHeight : Nat) : Option WType :=
+  match lookupStr Gen.C04.spendWitnessTypeSource method with
+  | some src =>
+    if src == "determineWitnessType(account, bestHeight)" then some (determineWitnessType version state expiry bestHeight)
+    else if method == "RenewAccount" && src == Gen.C04.renewWitnessTypeRule.1 then some (renewWitnessType version)
+    else none
+  | none => none
 
 /-- Sequence of the account input created by createSpendTx: the literal sets only the listed fields -/
 def createSpendTxSequence : Option Nat :=
